@@ -288,6 +288,10 @@ func (g *gen) batch() Op {
 	r := g.r
 	op := Op{K: "batch"}
 	n := r.Range(1, 7)
+	if r.Bool(0.12) {
+		// a long batch: with the few keys there are, most occur several times
+		n = r.Range(13, 40)
+	}
 	for i := 0; i < n; i++ {
 		k := g.key()
 		if r.Bool(0.3) {
